@@ -16,6 +16,7 @@ RULE = (
     "pairs (1-D length 4 and 2x2 over {0,1,2}) and generated families, all threshold classes of the input; only cases with a "
     "uniquely determined matching are judged. Non-trivial = judged case with tp > 0 and the two maps different; distinct = "
     "hash of (arrays, configuration)."
+    ' Further families: pair codes at the dtype boundaries, labels beyond 2^24 / 2^25 shared between the sides, class labels used by one side only, about 256 components on one side only, sparse volumes beyond 2^18 / 2^20 / 2^22 voxels.'
 )
 ASSUMPTIONS = ["RVD values are quotients of voxel counts below 10^6, recovered exactly with Fraction.limit_denominator"]
 MINIMUM = {"C11.judged": 3000, "C11.rvd_values_judged": 1000}
